@@ -6,6 +6,7 @@ import (
 	"fmt"
 	"math/big"
 	"strings"
+	"sync"
 
 	secp256k1 "github.com/bytemare/secp256k1"
 	"github.com/bytemare/secp256k1/internal/verif/alpha"
@@ -109,8 +110,17 @@ func c03Receiver(which int) *secp256k1.Element {
 
 	// a representation whose twelve limbs are all dense: a decoder that overwrites only part of a coordinate
 	// (say, sets the low limb of Z to the Montgomery form of 1 and forgets to clear the others) leaves a trace
-	return newElement(Rep{HPoint(), ref.Mod(alpha.Fixed(1, "c03-prior-receiver")[0], ref.P)})
+	c03PriorOnce.Do(func() {
+		c03Prior = Rep{HPoint(), ref.Mod(alpha.Fixed(1, "c03-prior-receiver")[0], ref.P)}
+	})
+
+	return newElement(c03Prior)
 }
+
+var (
+	c03PriorOnce sync.Once
+	c03Prior     Rep
+)
 
 // c03Case presents b to decoder di (5 = DecodeCoordinates on b[1:33], b[33:65]) with receiver `which`.
 //
